@@ -210,8 +210,11 @@ class Builder(ABC):
             return traj
         finally:
             # Remove the context: this only exists during the simulation of a
-            # trajectory.
-            del self.ctx
+            # trajectory. (If the context constructor itself failed, there is
+            # no context to remove, and the constructor's exception must be
+            # the one that propagates.)
+            if 'ctx' in self.__dict__:
+                del self.ctx
 
     def _iterate_mass(self) -> Trajectory:
         """Iterate on starting mass to minimize residual fuel mass."""
